@@ -163,6 +163,8 @@ func (cache *Cache) Store(seqno uint16, timestamp uint32, keyframe bool, marker 
 		cache.lastValid = true
 		cache.expected++
 		cache.received++
+		// restart the loss bitmap together with the counters
+		cache.bitmap.valid = false
 	} else {
 		cmp := compare(cache.last, seqno)
 		if cmp < 0 {
